@@ -47,7 +47,7 @@ def _enclosing(fn_node, target, kinds):
     return path
 
 
-def check(ctx, rep: Report):
+def _check_main(ctx, rep: Report):
     call = ctx.p.find_function("spec_class.__call__")
     rel = call.module.relpath
     node = call.node
@@ -243,3 +243,10 @@ def check(ctx, rep: Report):
         rep.violate(Violation("C19.DIS", f"C19.DIS|{b_[:50]}", f"MethodDescriptor.__get__: {b_}", f"{g.module.relpath}:{g.node.lineno}", "MethodDescriptor.__get__"))
     rep.evaluations = len(rep.obligations)
     rep.sample({"locks": locks, "lazy_triggers": sorted(locked_names), "placeholders": len(ph)})
+
+
+def check(ctx, rep):
+    from . import metarules, shared
+    _check_main(ctx, rep)
+    metarules.decorator_snapshots(ctx, rep, "C19.SNAP")
+    metarules.singular_cache(ctx, rep, "C19.CACHE")
